@@ -186,6 +186,10 @@ class WatermarkPoolSink(PoolSink):
   def _OpenImpl(self):
     sink = self._Get()
     self._Release(sink)
+    if self._state == ChannelState.Closed:
+      # The connection could not be opened, _Release found it dead and closed
+      # the pool.
+      raise Exception('Unable to open a connection to %s' % self.endpoint)
     self._state = ChannelState.Open
 
   def _FlushCache(self):
